@@ -48,8 +48,8 @@ def run(chk):
     chk.coq_make(["spec/IRRun.vo", "proofs/Certs.vo"])
     for cap in (["2", None] if quick else ["1", "2", None]):
         cfg = {"seed": chk.seed * 17 + 3 + (int(cap) if cap else 0), "kinds": ["hist", "structure"],
-               "fmt_cap": 3 if quick else 10, "n_inputs": 2 if quick else 4,
-               "max_problems": (len(SHAPES) + 35) if quick else 600, "per_shard": 8, "fuel": 400000,
+               "fmt_cap": 4 if quick else 10, "n_inputs": 2 if quick else 4,
+               "max_problems": (len(SHAPES) + 60) if quick else 600, "per_shard": 8, "fuel": 400000,
                "certs": True, "priority": SHAPES}
         index, failing = run_mgen(chk, f"cap{cap or 'default'}", cfg, cap)
         if index is None:
